@@ -1,11 +1,11 @@
 SPECIFICATION Spec
 CONSTANTS
   MaxN = 2
-  MaxFaults = 2
+  MaxFaults = 1
   MaxTests = 2
   TestKinds = {"good","bad","skipdeco"}
   Repeats = {1,2}
-  Stops = {TRUE,FALSE}
+  Stops = {FALSE}
   Modes = {"seq","par"}
   HookModes = {"some"}
   Deviations = {}
